@@ -105,11 +105,19 @@ func (this *partition) loadRaft(nodeIds []uint64) error {
 	this.raftMu.Lock()
 	defer this.raftMu.Unlock()
 
-	var err error
-	this.raft, err = raft.NewRaftGroup(this.id, nodeIds, this.wal, this.raftTransport)
+	// The replica may be asked to load twice: while a restarted node replays
+	// the catalogue, the allocator's deferred look at a watched partition and
+	// the entry that added this node to it both find the node assigned. The
+	// group that is running stays the partition's group.
+	if this.raft != nil {
+		return nil
+	}
+
+	group, err := raft.NewRaftGroup(this.id, nodeIds, this.wal, this.raftTransport)
 	if err != nil {
 		return err
 	}
+	this.raft = group
 	if err := this.raft.RegisterProcessFn(this.process); err != nil {
 		return err
 	}
